@@ -21,7 +21,7 @@ EXPLANATION = (
     " (R5) append-buffer discipline of the GFF/GTF line readers incl. the blank-line skip loop."
     " (R6) copy before consume for the BED field scanner."
     " (R7) every BED read_record_N resets the line buffer and the extra-column bounds of the reused destination on all success paths (field-path reset rule, interprocedural through helpers that are handed a parent object)."
-    " (R8) numeric columns are formatted from their own type: no unproven narrowing `as` cast (int to smaller int, float to int) in the GFF / GTF / BED writers.")
+    " (R8) numeric columns are formatted from their own type: no unproven narrowing `as` cast (int to smaller int, float to int) in the GFF / GTF / BED writers. (R9) the lazy directive view does not trim.")
 ASSUMPTIONS = ["percent-encoding crate semantics", "reader delimiter constants are the named DELIMITER/SEPARATOR consts (floor-checked)"]
 NOT_DECIDED = ["equality of arbitrary UTF-8 values; BED optional-column values; directive round trip"]
 
@@ -240,6 +240,31 @@ def run(ctx):
     total_casts = sum(1 for f_ in fb.fns.values() if f_.blocks for blk in f_.blocks if not blk.get("cu") for st in blk["s"]
                       if st[0] == "=" and st[2][0] == "cast" and st[2][1] in ("IntToInt", "FloatToInt"))
     ctx.floor("C18.R8", "`as` casts seen workspace-wide (positive control of the matcher; none in these writers today)", total_casts, 100)
+
+    ctx.rule("C18.R9", "the lazy GFF directive view hands back the bytes the writer wrote: Directive::key / ::value split the line at the one "
+                       "separator and do not trim (trim_ascii*, trim*): a value that starts with, or consists of, whitespace is written as is and "
+                       "must come back as is (owned lines are built from this view, sync and async); expected 0 trims, the scanner's positive "
+                       "control are the legitimate trims of the GTF attribute tokenizer")
+    n9, seen9 = 0, 0
+    for k9, f9 in sorted(fb.fns.items()):
+        if not f9.blocks or not re.match(r"<?noodles_(gff|gtf|bed)::", k9):
+            continue
+        for b9, c9 in f9.calls():
+            if not re.search(r"::trim\w*$", c9.get("f") or ""):
+                continue
+            seen9 += 1
+            if re.match(r"noodles_gff::directive::Directive::<'l>::(key|value)$|noodles_gff::directive::Directive::(key|value)$", f9.root):
+                n9 += 1
+                ctx.saw_fn(f9)
+                ctx.violation("C18.R9", "C18.R9/directive-view-trims/" + f9.root,
+                              "%s trims what it returns (%s): a directive value with leading / only whitespace does not read back equal" % (
+                                  f9.root, (c9.get("f") or "").split("::")[-1]), f9.loc(b9))
+    fdv = ctx.anchor("C18.R9", "noodles_gff::directive::Directive::<'l>::value") if "noodles_gff::directive::Directive::<'l>::value" in fb.fns else \
+        ctx.anchor("C18.R9", [k for k in fb.fns if re.match(r"noodles_gff::directive::Directive(::<.*>)?::value$", k)][0] if
+                   [k for k in fb.fns if re.match(r"noodles_gff::directive::Directive(::<.*>)?::value$", k)] else "noodles_gff::directive::Directive::value")
+    if fdv is not None and not n9:
+        ctx.ok("C18.R9", fdv.key, "no trim in the directive view", fdv.loc())
+    ctx.floor("C18.R9", "trim calls seen in the GFF / GTF / BED readers (positive control)", seen9, 2)
 
     ctx.rule("C18.R4", "owned GFF record is built from the lazy accessors (shared path)")
     fc = ctx.anchor("C18.R4", "noodles_gff::feature::record_buf::convert::<impl noodles_gff::feature::record_buf::RecordBuf>::try_from_feature_record")
